@@ -29,7 +29,10 @@ TRUSTED = ["correspondence harness props/C07.py + pv/ (every case starts from a 
            "pv.shim; only public hooks are patched: builtins.open (shim), os.sysconf (SC_CLK_TCK, SC_NPROCESSORS_ONLN), time.monotonic, time.sleep, "
            "psutil.PROCFS_PATH; no private psutil attribute is read or written; real threads run one call at a time in scripted order; float results are snapped to the model's/spec's exact rational when "
            "within the rounding tolerance)",
-           "/proc/stat format transcribed from proc(5) / fs/proc/stat.c in coq/C07/Spec.v"]
+           "/proc/stat format transcribed from proc(5) / fs/proc/stat.c in coq/C07/Spec.v",
+           "props/_c07_gen.py (ast -> coq/C07/PyGen.v programs, fail closed) and the PyGen interpreter: Python's semantics of the translated "
+           "statements over exact rationals (round(x, 1) is the identity, sum() the exact sum, `if LINUX:` is taken, a or b on numbers, "
+           "max/min return the first extremal argument); field order of scputimes/pcputimes written by hand in PyGen.v"]
 ASSUMPTIONS = ["IEEE double arithmetic and round(x, 1) are not modelled: exact rationals are compared with the returned floats within "
                "0.05 (one rounding step) + 1e-9 + a float-noise term 200*2^-46*max_counter/granularity",
                "a psutil call reads /proc/stat atomically with respect to kernel updates and to other threads' calls (calls are run one "
@@ -1423,7 +1426,7 @@ def gen_tables(impl_dir, out_dir):
 
 
 MANIFEST = {
-    "text": "Theorems (Coq, 40, all closed under the global context): (parse) for every /proc/stat the kernel can print (any number of CPUs, >= 7 "
+    "text": "Theorems (Coq, 47, all closed under the global context): (parse) for every /proc/stat the kernel can print (any number of CPUs, >= 7 "
             "decimal counters per line) the model of cpu_times()/cpu_times(percpu=True) returns every named counter / CLOCK_TICKS per CPU in kernel "
             "order; (arithmetic) cpu_percent between two samples = 100*busy/total over clipped deltas (busy = user+nice+system+irq+softirq+steal, "
             "guest not double counted, idle/iowait not busy), in [0,100], a counter that went backwards contributes zero; cpu_times_percent values "
@@ -1448,9 +1451,14 @@ MANIFEST = {
             "(C07_oneshot_block_transparent); object protocols: a table generated from the ast of the source under test shows that everything "
             "Process.cpu_percent reaches through self is private or the platform layer (C07_cpu_percent_samples_are_private, re-checked every run), the "
             "cpu_percent() answers do not depend on what a user subclass's public cpu_times() returns, a subclass not overriding cpu_times() is Process, and "
-            "(observation only, not part of the property: a subclass overriding a memoised public method cannot enter oneshot()). The model is tied to the code by running the real psutil over fake /proc/stat "
+            "(observation only, not part of the property: a subclass overriding a memoised public method cannot enter oneshot()). (translation, round 2) the arithmetic of _cpu_tot_time, _cpu_busy_time, the loop body of _cpu_times_deltas, cpu_percent.calculate, "
+            "cpu_times_percent.calculate and the tail of Process.cpu_percent (num_cpus, delta_proc, delta_time, ZeroDivisionError handler) is translated on every run "
+            "from the ast of the source under test by the fail-closed props/_c07_gen.py into programs of coq/C07/PyGen.v (coq/Gen/C07_Tables.v); "
+            "C07_gen_tot_time, C07_gen_busy_time, C07_gen_delta_body, C07_gen_deltas_fieldwise, C07_gen_calc_percent, C07_gen_calc_times_percent, "
+            "C07_gen_proc_percent prove the interpreter on the generated programs equal to the model's tot_time, busy_time, deltas, calc_percent, "
+            "calc_times_percent, proc_finish for all inputs. The rest of the model is tied to the code by running the real psutil over fake /proc/stat "
             "files (including a real re-import of psutil over a redirected /proc/stat), a scripted clock and real threads on generated cases.",
-    "note": "Trusted: Coq kernel + vm_compute; hand-written model coq/C07/Model.v (tied by the correspondence run only); /proc/stat format in "
+    "note": "Trusted: Coq kernel + vm_compute; hand-written model coq/C07/Model.v (its arithmetic functions tot_time, busy_time, deltas (per field), calc_percent, calc_times_percent, proc_finish are tied to the source by translation + proof; the parsing, the per-thread sample maps, blocking/non-blocking control flow, first-call handling and oneshot blocks by the correspondence run only); translator props/_c07_gen.py and interpreter coq/C07/PyGen.v (round(x,1) = identity, sum() = exact sum, `if LINUX:` taken, field-name tables scputimes_names/pcputimes_names hand-written, _cpu_times_deltas loop skeleton checked structurally, its call a primitive of the language); /proc/stat format in "
             "coq/C07/Spec.v; harness (fake files, importlib.reload under the path shim, public hooks only: os.sysconf, time.monotonic, "
             "time.sleep, PROCFS_PATH; snapping tolerance); CPython floats and round() (compared within one rounding step). cpu_stats() is left to C19.",
 }
